@@ -448,11 +448,21 @@ static void wf_q (const char *what, mpq_srcptr q)
   snprintf (b, sizeof b, "%s.num", what); wf_z (b, mpq_numref (q));
   snprintf (b, sizeof b, "%s.den", what); wf_z (b, mpq_denref (q));
 }
+/* variables whose precision is currently lowered with mpf_set_prec_raw (calls come in lower/restore pairs): their size may exceed prec+1 */
+static __thread const void *rawlow[32]; static __thread int nraw;
+static int raw_lowered (const void *f) { int i; for (i = 0; i < nraw; i++) if (rawlow[i] == f) return 1; return 0; }
+static void raw_toggle (const void *f)
+{
+  int i;
+  for (i = 0; i < nraw; i++) if (rawlow[i] == f) { rawlow[i] = rawlow[--nraw]; return; }
+  if (nraw < 32) rawlow[nraw++] = f;
+}
 static void wf_f (const char *what, mpf_srcptr f)
 {
   long p = f->_mp_prec, s = f->_mp_size, as = s < 0 ? -s : s;
   if (p < 2) monitor_msg ("WF:%s:prec<2(%ld)", what, p);
-  if (as > p + 1) monitor_msg ("WF:%s:size>prec+1(%ld>%ld+1)", what, as, p);
+  if (as > p + 1 && raw_lowered (f)) ;
+  else if (as > p + 1) monitor_msg ("WF:%s:size>prec+1(%ld>%ld+1)", what, as, p);
   else if (as > 0 && f->_mp_d[as - 1] == 0) monitor_msg ("WF:%s:top-limb-zero(size=%ld)", what, s);
   if (s == 0 && f->_mp_exp != 0) monitor_msg ("WF:%s:zero-with-exp(%ld)", what, (long) f->_mp_exp);
 }
@@ -716,7 +726,7 @@ static int do_call (ctx *c, char *s)
           if (j < k) break;
           ob_putc (&c->out, ' '); put_f (&c->out, a->ptr);
           /* between mpf_set_prec_raw calls the size may legitimately exceed the lowered precision */
-          if (strcmp (name, "mpf_set_prec_raw")) wf_f (a->tok, a->ptr);
+          if (strcmp (name, "mpf_set_prec_raw")) wf_f (a->tok, a->ptr); else raw_toggle (a->ptr);
           break;
         case '&':
           ob_printf (&c->out, " %ld", *(long *) a->ptr); break;
@@ -896,7 +906,7 @@ static void exec_line (ctx *c, char *line)
       ob_putc (&c->out, '\n'); nevts = 0; return;
     }
   if (!strcmp (cmd, "clearall"))
-    {
+    { nraw = 0;
       /* clear every object; the recorder must then hold nothing */
       unsigned long live;
       in_lib = 1; live = ctx_clear (c); in_lib = 0;
